@@ -13,9 +13,8 @@ import time
 import common as C
 import gen as G
 
-THEOREMS = ['promotion_table_is_numpy', 'fill_ok_promote', 'mergemany_numpy_app', 'mergemany_app_partial',
-            'mergemany_valid_partial', 'merge_as_union_app', 'merge_as_union_valid',
-            'simplify_option_value', 'simplify_union_value_partial', 'astype_only_casts_partial']
+THEOREMS = ['promotion_table_is_numpy', 'fill_ok_promote', 'mergemany_app_partial', 'mergemany_valid_partial',
+            'merge_as_union_app', 'merge_as_union_valid', 'simplify_option_value', 'simplify_option_flat']
 DRIVERS = ('mergedrv',)
 NEEDS_SAN = True
 COQ_DIR = '/verif/c08/coq'
@@ -653,7 +652,12 @@ def signature(c, impl, v):
             return 'concat-emptyarray-between-unmergeable'
     if v.startswith('viol type') or v.startswith('viol mergeable') or v.startswith('viol closure'):
         b = c.body()
-        if ('(par string' in b or '(par bytestring' in b) and (WRAPPED_STRING.search(b) or '(empty)' in b or '(un ' in b):
+        strings = '(par string' in b or '(par bytestring' in b
+        if strings and v.startswith('viol closure') and c.op == 'concat' and re.search(r'\(un i64 \([-\d ]*\) \([-\d ]*\) \(un ', impl):
+            # the union built by merge_as_union is itself "not mergeable" with a string array (UnionArray::mergeable
+            # compares its own, empty, parameters with __array__="string"), so it is wrapped in a further union
+            return 'mergeable-parameters-of-wrapper-node'
+        if strings and (WRAPPED_STRING.search(b) or '(empty)' in b or '(un ' in b):
             # mergeable() compares the __array__ parameter of the two top nodes even when one of them is a wrapper
             # (IndexedArray / option node / UnionArray) or an EmptyArray: a string array behind such a node is "not
             # mergeable" with a plain string array -> needless unions, and unions nested in unions
